@@ -20,8 +20,8 @@ from sfc_models.equation_solver import EquationSolver, NoEquilibriumError  # noq
 ID = 'C15'
 LEVEL = 'exploration'
 RULE = ('systems x = a*LAG_x + c*LAG_y + b (+ 0.1*t), y = a2*LAG_y + b2 with (a,c) in {0,.5,.9,1,-.5,-1,1.05}^2 (thorough: 12 values each; one-state systems also with a in {60,-60,1e200}: overflow inside the search horizon), b in '
-        '{0,1,-1,10,-10}, initial values in {0,5,-5}, read-outs z=-x (decorative) and al=x (alias), exogenous shift g; x search horizon '
-        '{1,2,3,20,200} x tolerance {1e-4,1e-3} x excluded list {default, +z (a read-out nothing depends on)}; oracle: after acceptance one more SolveStep with exogenous '
+        '{0,1,-1,10,-10}, initial values in {0,5,-5}, read-outs z=-x (decorative) and al=x (alias), exogenous shift g (rising path, or a step after k=0 that then stays put beyond the search horizon); x search horizon '
+        '{1,2,3,20,200} x tolerance {1e-4,1e-3,1e-9} x excluded list {default, +z (a read-out nothing depends on)}; oracle: after acceptance one more SolveStep with exogenous '
         'frozen at k=0 moves every non-excluded variable by <= 2 tol (absolute or relative; violated only if both >= 20 tol), rejection is '
         'NoEquilibriumError/ValueError, Parser lists / exogenous series / MaxTime deep-equal to the snapshot; non-trivial = accepted searches')
 ASSUMPTIONS = [
@@ -36,7 +36,7 @@ AC = [0., .5, .9, 1., -.5, -1., 1.05]
 AC_THOROUGH = AC + [.25, .75, -.9, 1.01, -1.05]
 BS = [0., 1., -1., 10., -10.]
 INITS = [0., 5., -5.]
-TOLS = [1e-4, 1e-3]
+TOLS = [1e-4, 1e-3, 1e-9]
 
 
 def one_state(a, b, x0, timedep, shift):
@@ -46,8 +46,11 @@ def one_state(a, b, x0, timedep, shift):
     if shift:
         rhs += ' + g'
     exos = [('g', '[2., 3., 4., 5., 6.]')] if shift else []
+    if shift == 'step':
+        # an input that steps after k=0 and then stays put for longer than the search horizons: the search must use g(0)
+        exos = [('g', '[2.] + [4.]*30')]
     return Block([('x', rhs), ('z', '-x'), ('al', 'x'), ('u', '2*al')], lags=[('LAG_x', 'x')], ics={'x': repr(x0)},
-                 exos=exos, maxtime=3)
+                 exos=exos, maxtime=30 if shift == 'step' else 3)
 
 
 def bare_state(kind, a, b, x0):
@@ -148,7 +151,7 @@ def run_unit(unit, tier):
             for T in b_['one_state_horizons']:
                 cases.append((blk, T, {'sys': 'bare', 'kind': kind, 'a': unit['a'], 'b': b, 'x0': x0}))
     elif unit['part'] == 'one':
-        for b, x0, td, sh in itertools.product(BS, INITS, (False, True), (False, True)):
+        for b, x0, td, sh in itertools.product(BS, INITS, (False, True), (False, True, 'step')):
             blk = one_state(unit['a'], b, x0, td, sh)
             for T in b_['one_state_horizons']:
                 cases.append((blk, T, {'sys': 'one', 'a': unit['a'], 'b': b, 'x0': x0, 'timedep': td, 'shift': sh}))
